@@ -94,6 +94,7 @@ type Proc struct {
 
 	Steps        int64
 	StepBudget   int64
+	InputTokens  int // length of the argument vector when it is long: the frame-local loop budget grows with it
 	loopRun      int64
 	loopMinDepth int
 	loopMaxDepth int
@@ -112,6 +113,16 @@ func NewProc(id int) *Proc {
 		p.StepBudget = 1 << 62
 	}
 	return p
+}
+
+// SetInputSize tells the budgets how long the argument vector is: what they bound is polynomial in the size of the
+// input (the option matchers look ahead through the remaining arguments: quadratic), so for command lines of
+// thousands of tokens the frame-local loop budget grows linearly and the step budget quadratically with it.
+func (p *Proc) SetInputSize(tokens int) {
+	p.InputTokens = tokens
+	if !liftBudgets && tokens > 64 {
+		p.StepBudget = defaultStepBudget + 20*int64(tokens)*int64(tokens)
+	}
 }
 
 const defaultStepBudget = 2_000_000
@@ -273,7 +284,7 @@ func pointHook(site string) {
 				p.loopMaxDepth = d
 			}
 		}
-		if p.loopRun > stuckLoopBudget && p.loopMaxDepth-p.loopMinDepth <= 3 {
+		if p.loopRun > stuckLoopBudget*int64(1+p.InputTokens/32) && p.loopMaxDepth-p.loopMinDepth <= 3 {
 			panic(&budgetSentinel{"stuck-loop"})
 		}
 	} else {
